@@ -105,6 +105,19 @@ def handle : List String → String
       | .ok v => s!"ok {v}"
       | .error _ => "err Format"
     | _, _ => "bad-op"
+  | ["batch", kind, items] =>
+    let one (it : String) : Option String :=
+      match kind with
+      | "str" => (unhex it).map fun bs => let (i, b) := rtStr bs; s!"{hexs i}:{showBack hexs b}"
+      | "sym" => (unhex it).map fun bs => let (i, b) := rtSym bs; s!"{hexs i}:{showBack hexs b}"
+      | "chr" => (parseNat? it).map fun c => let (i, b) := rtChr c; s!"{hexs i}:{showBack toString b}"
+      | "int" => (parseInt? it).map fun n =>
+          let i := Elk.Inspect.showInt n; s!"{hexs i}:{showBack (fun (v : Int) => toString v) (readInt i)}"
+      | "lit" => (unhex it).map fun src => showBack (fun (v : Int) => toString v) (readIntLit src)
+      | _ => none
+    match optAll ((items.splitOn ",").map one) with
+    | some rs => "ok " ++ joinWith "," rs
+    | none => "bad-op"
   | ["sweep", kind, lo, hi] => match parseNat? lo, parseNat? hi with
     | some lo, some hi =>
       if kind ∈ ["str", "sym", "chr", "byte", "symbyte"] ∧ lo ≤ hi then sweep kind lo hi else "bad-op"
